@@ -17,9 +17,9 @@ EXTRA = {
  'C02': " R3 also: the build-time steps of a meta block leave no entries on the reverse log (the log is cut back to the mark taken when the block opened). R4 also: run, next and the halt close a group that the host or a failed instruction left open on the log before they record a new step, so rnext undoes one step at a time.",
  'C04': " R4: no public method takes a position inside the backing buffer - a range bound computed from a position argument adds range.start (seek, substr like read, peek, split_at); R3 also: slice() returning None is an error, never a fallback to raw bytes.",
  'C06': " The cursor counts bits of the value: the move is bounded by input.len(), open-bitstr starts at the constant 0 (decided from the constant's initialiser), and a read advances the current offset by len() of the peeked slice with an overflow check.",
- 'C10': " Also: heap cells allocated while a source is built are a rolled-back resource; program code runs at build time only in a sealed meta context or after the source was accepted (user-defined immediate words are a listed known finding); a halted program's run-time stacks are dropped.",
+ 'C10': " Also: heap cells allocated while a source is built are a rolled-back resource; program code runs at build time only in a sealed meta context or after the source was accepted (user-defined immediate words are a listed known finding); a halted program's run-time stacks are dropped; a roll-back bound taken from the entry mark is the mark itself.",
  'C11': " Also: the floor of a meta context is the current depth (nested blocks inheriting the outer floor is a listed known finding, pinned by an existing test); nothing permutes the dictionary, so the purge keeps the order of surviving constants; an instruction that patches itself at run time (the `late` stub) does so for good only outside meta evaluation. A block nested in another emits only what it left itself. Late binding refuses a build-time (immediate) word before it picks an instruction, so build-time words are run by the builder only.",
- 'C15': " Also: a user-defined immediate word returns to the end of the code, not into the half-built program, and the builder's ip is restored afterwards. A failed run under eval is left stopped at the failing instruction; a context never starts at the ip of the enclosing one (which is the instruction in flight when a host word calls eval).",
+ 'C15': " Also: a user-defined immediate word returns to the end of the code, not into the half-built program, and the builder's ip is restored afterwards. A failed run under eval is left stopped at the failing instruction and continuable, as compile + run leaves it; a context never starts at the ip of the enclosing one (which is the instruction in flight when a host word calls eval).",
  'C16': " R3 (necessary conditions of print/read-back visible in the code): radix formats are applied to an unsigned magnitude; every radix the printer emits for integers has a literal form in the lexer; the collected digits reach from_str_radix only behind a test of that text (it accepts a sign of its own).",
  'C17': " Also: the source a token belongs to is found by identity of its buffer, not by comparing source texts. A buffer is registered once; the cut of the source registry at the close of a meta block spares every buffer a pending input is still reading; every drive function forgets the previous failure before its first step; line and column are plain character counts.",
 }
